@@ -462,7 +462,7 @@ def str_slice(t):
     if not isinstance(c, tuple) or not c:
         return None
     base = rng = None
-    if c[0] == 'call' and len(c[2]) == 2 and _re.search(r'traits::(.*::)?index$|Index::index$|::get$|get_unchecked$', c[1]):
+    if c[0] == 'call' and len(c[2]) == 2 and _re.search(r'(^|::)index$|::get$|get_unchecked$', c[1]):
         base, rng = c[2]
     elif c[0] == 'index':
         base, rng = c[1], c[2]
